@@ -44,19 +44,30 @@ where
 
       source.inner_subscribe(sctl.new_observer(
         move |_, x| {
-          let mut n = n.write().unwrap();
-          if *n == 0 {
-            sctl_next.sink_next(sbj_next.read().unwrap().observable());
-            sbj_next.read().unwrap().next(x);
-            *n += 1;
-          } else {
-            sbj_next.read().unwrap().next(x);
-            *n += 1;
-            if *n == count {
-              sbj_next.read().unwrap().complete();
-              *sbj_next.write().unwrap() = subjects::Subject::<Item>::new();
-              *n = 0;
+          // decide under the lock, call the window and downstream without it,
+          // so that a subscriber may emit into the source from its callback
+          let (open, close, sbj) = {
+            let mut n = n.write().unwrap();
+            let sbj = sbj_next.read().unwrap().clone();
+            if *n == 0 {
+              *n += 1;
+              (true, false, sbj)
+            } else {
+              *n += 1;
+              let close = *n == count;
+              if close {
+                *sbj_next.write().unwrap() = subjects::Subject::<Item>::new();
+                *n = 0;
+              }
+              (false, close, sbj)
             }
+          };
+          if open {
+            sctl_next.sink_next(sbj.observable());
+          }
+          sbj.next(x);
+          if close {
+            sbj.complete();
           }
         },
         move |_, e| {
